@@ -52,6 +52,7 @@ type worker[T any, JobType iJob[T]] struct {
 	tickerDones     []chan struct{}
 	mx              sync.RWMutex
 	restartMx       sync.Mutex
+	reapers         sync.WaitGroup
 	ctx             context.Context
 	cancel          context.CancelFunc
 	Configs         configs
@@ -429,7 +430,9 @@ func (w *worker[T, JobType]) goRemoveIdleWorkers() {
 	w.tickerDones = append(w.tickerDones, done)
 	w.mx.Unlock()
 
+	w.reapers.Add(1)
 	go func() {
+		defer w.reapers.Done()
 		for {
 			select {
 			case <-done:
@@ -531,6 +534,10 @@ func (w *worker[T, JobType]) stopTickers() {
 
 	w.tickers = make([]*time.Ticker, 0)
 	w.tickerDones = nil
+
+	// a reaper caught in the middle of a round finishes it now: the next run reuses the pool's
+	// cached nodes, and a stale round would retire one of them as if it were still the old one
+	w.reapers.Wait()
 }
 
 func (w *worker[T, JobType]) closeChannels() {
